@@ -84,6 +84,13 @@ Definition total_refs (h : heap) : nat := fold_right (fun o n => length (refs o)
 Definition reach (h : heap) (roots : list addr) : list addr :=
   dfs h (S (length roots + total_refs h)) roots [].
 
+(* certificate that a computed reachable set R is complete (no fuel shortfall): it contains every valid root
+   and is closed under valid references; Proofs/HeapP.v: reach_closed ... = true -> reachable ⊆ R *)
+Definition reach_closed (h : heap) (roots R : list addr) : bool :=
+  forallb (fun r => negb (r <? length h) || mem r R) roots &&
+  forallb (fun a => forallb (fun b => negb (b <? length h) || mem b R) (refs (get h a))) R.
+Definition reach_ok (h : heap) (roots : list addr) : bool := reach_closed h roots (reach h roots).
+
 (* ---------------------------------------------------------------- state monad over the heap *)
 Definition M (A : Type) := heap -> heap * A.
 Definition ret {A} (x : A) : M A := fun h => (h, x).
@@ -252,6 +259,24 @@ Definition partition_problem (m : mode) (c : addr) (spans : list bool) (sides : 
   | None => ret [d; bl]
   end.
 
+(* ---------------------------------------------------------------- separate_circuit (utils/transforms.py) *)
+(* new_qc = circuit.copy(); every subcircuit is built from the COPY's instruction objects (append(CircuitInstruction)
+   stores the operation it is given), so each instruction of the argument is copied exactly once *)
+Definition sep_piece (deep : bool) (l : nat) (a : addr) (s : nat * nat) : M (list addr) :=
+  if Nat.eqb (fst s) l then (x <- copy_op deep a ;; ret [x]) else ret [].
+
+Definition sep_sub (deep : bool) (ops : list addr) (sides : list (nat * nat)) (n : nat) (l : nat) : M addr :=
+  ps <- mapM (fun as_ => sep_piece deep l (fst as_) (snd as_)) (combine ops sides) ;;
+  alloc (OCirc (concat ps) n).
+
+Definition separate_circuit (m : mode) (c : addr) (sides : list (nat * nat)) (nl : nat) : M (list addr) :=
+  ops <- ops_of c ;;
+  n <- cregs_of c ;;
+  subs <- mapM (sep_sub (fix6 m) ops sides n) (seq 0 nl) ;;
+  d <- alloc (OList subs) ;;
+  qm <- alloc (OResult [nl]) ;;
+  ret [d; qm].
+
 (* ---------------------------------------------------------------- cut_wires *)
 Definition wire_piece (m : mode) (a : addr) : M addr :=
   o <- read a ;;
@@ -400,7 +425,8 @@ Inductive call :=
 | CFindCuts (c : addr) (gate_ids wires : list nat)
 | CGenerate (circs obs : list addr) (samples : list (list nat)) (ngroups : list nat) (cutidx : list (list nat))
 | CDqi (inplace : bool) (c : addr) (ids mids : list nat)
-| CReconstruct (results : list addr) (coeffs : addr) (obs : list addr).
+| CReconstruct (results : list addr) (coeffs : addr) (obs : list addr)
+| CSeparate (c : addr) (sides : list (nat * nat)) (nl : nat).
 
 Definition run (m : mode) (cl : call) : M (list addr) :=
   match cl with
@@ -413,12 +439,13 @@ Definition run (m : mode) (cl : call) : M (list addr) :=
   | CGenerate circs obs samples ng ci => generate_cutting_experiments m circs obs samples ng ci
   | CDqi ip c ids mids => x <- decompose_qpd_instructions m ip c ids mids ;; ret [x]
   | CReconstruct rs co obs => x <- reconstruct rs co obs ;; ret [x]
+  | CSeparate c sides nl => separate_circuit m c sides nl
   end.
 
 (* the mutable arguments of a call *)
 Definition args_of (cl : call) : list addr :=
   match cl with
-  | CPcq _ c _ | CCutGates _ c _ | CCutWires c | CFindCuts c _ _ | CDqi _ c _ _ => [c]
+  | CPcq _ c _ | CCutGates _ c _ | CCutWires c | CFindCuts c _ _ | CDqi _ c _ _ | CSeparate c _ _ => [c]
   | CPartition c _ _ _ obs => c :: match obs with Some p => [p] | None => [] end
   | CExpand obs c1 c2 => [obs; c1; c2]
   | CGenerate circs obs _ _ _ => circs ++ obs
@@ -495,3 +522,12 @@ Definition observe (m : mode) (h : heap) (cl : call) : bool * list nat * list na
   (changed,
    tag_counts h1 (alias_roots h1 (reach h (args_of cl)) (snd r1)),
    if in_place cl then repeat 0 7 else tag_counts h2 (alias_roots h2 (reach h2 (snd r1)) (snd r2))).
+
+(* every reachability computation that `observe` relies on is certified complete *)
+Definition observe_ok (m : mode) (h : heap) (cl : call) : bool :=
+  let r1 := run m cl h in
+  let h1 := fst r1 in
+  let r2 := run m cl h1 in
+  let h2 := fst r2 in
+  reach_ok h (args_of cl) && reach_ok h1 (snd r1) &&
+  (in_place cl || (reach_ok h2 (snd r1) && reach_ok h2 (snd r2))).
